@@ -93,7 +93,7 @@ Proof. exact AnalysisWitness.deps_witness_fixed. Qed.
 Print Assumptions C05_result_wf_dependencies_fixed_witness.
 
 (* NOT PROVED: forall s r, analyse s = Done r -> valid_type (r_type r) = true -> wf_topological false r = true
-   ("direct equations admit a topological order").  Evaluated on the real AnalyserModel and on the model's own
+   ("direct equations can be ordered so that dependencies come first").  Evaluated on the real AnalyserModel and on the model's own
    result for every generated system on every run (no failure of clause 5 has been observed); the ordering
    constraints THROUGH NLA systems (clause 51) do fail on the library, see design_notes/C05.md. *)
 
